@@ -51,6 +51,18 @@ def gen_pipeline_trace(rng, ttl, step):
     ops.append(("LC",))
     s = rng.choice(sorted(w.hist))
     victim = rng.choice(sorted(w.hist[s][-1][1].values()))          # address of a member of shard s
+    lagging = rng.random() < 0.4
+    if lagging:
+        # instead of dropping the shard, the victim's replica keeps being REPORTED by its (live) NodeHost for longer than the timeout,
+        # but lagging: with an older membership version / pending / incomplete.  A replica that is reported is not failed: no ADD, no DELETE.
+        vrid = [rid for rid, ad in w.hist[s][-1][1].items() if ad == victim][0]
+        oldv, oldm = w.hist[s][-1]
+        w.hist[s].append((oldv + rng.choice([1, 3]), dict(oldm)))   # the membership version moves on (same members); the others report it
+        order2 = [a for a in w.hosts if a != victim]
+        rng.shuffle(order2)
+        for a in order2:
+            ops.append(("R", full(a)))
+        ops.append(("LC",))
     silent = rng.sample([a for a in w.hosts if a != victim], rng.choice([0, 0, 1]))
     nticks = ttl // step + rng.choice([1, 1, 2, 3])
     for t in range(nticks + rng.randint(1, 3)):
@@ -62,7 +74,20 @@ def gen_pipeline_trace(rng, ttl, step):
         for a in rep:
             if rng.random() < 0.25 and a != victim:
                 continue
-            ops.append(("R", full(a, drop=(s,) if a == victim else ())))
+            if lagging and a == victim:
+                fr = full(a)
+                mode = rng.choice(["stale", "stale", "pending", "incomplete"])
+                for ci in fr["infos"]:
+                    if ci["shard"] == s and ci["replica"] == vrid:
+                        if mode == "stale":
+                            ci["cci"], ci["members"] = oldv, sorted(oldm.items())
+                        elif mode == "pending":
+                            ci["cci"], ci["members"], ci["pending"] = 0, [], True
+                        else:
+                            ci["cci"], ci["members"], ci["incomplete"] = oldv, [], True
+                ops.append(("R", fr))
+            else:
+                ops.append(("R", full(a, drop=(s,) if a == victim else ())))
             if t >= nticks - 1:
                 ops.append(("LC",))
     ops.append(("LC",))
@@ -106,7 +131,13 @@ def pipeline_contexts(ck, ntraces, ttl, step):
         return None
     out, seen = [], set()
     for ti, ops in enumerate(traces):
+        tick, last = 0, {}
         for oi, op in enumerate(ops):
+            if op[0] == "T":
+                tick += step
+            elif op[0] == "R":
+                for ci in op[1]["infos"]:
+                    last["%d:%d" % (ci["shard"], ci["replica"])] = tick      # logical time of the last report naming that replica
             if op[0] != "LC":
                 continue
             c = db_json_to_ctx(res[ti]["obs"]["A"].get(oi, ""), ck.rng, "pipe:t%d:op%d" % (ti, oi))
@@ -116,9 +147,53 @@ def pipeline_contexts(ck, ntraces, ttl, step):
             if key in seen:
                 continue
             seen.add(key)
+            c["hist_last"] = dict(last)
+            c["hist_now"] = tick
             c["db_trace"] = dbengine.trace_to_json([o for o in ops[:oi + 1] if o[0] != "LC"])   # the commands that produced this context (replay)
             out.append(c)
     return out
+
+
+# ------------------------------------------------------------------ the fence on the NodeHost side
+def fence_part(ck):
+    """"Each such request carries the membership version it was computed from ..., so executing it against a newer membership has
+    no effect": the real client.DrummerClient on a real in-process NodeHost (agent executor and scenario templates of C18) executes
+    ADD / DELETE requests whose fence is / is not the current version, on replicas started by launch AND on replicas brought back
+    by a restore request (every replica after a NodeHost restart): a stale request changes neither membership nor version."""
+    import c18
+    binp = ck.go_test_bin("client", ["client/zz_verif_agent_test.go"], tags="dragonboat_monkeytest")
+    if binp is None:
+        return
+    reps = 2 if ck.tier == "quick" else 25
+    scns = [c18.tpl(ck, "f%d-%s" % (rep, name), name) for rep in range(reps)
+            for name in ("add", "order-fence", "delete-rejected-keeps", "fence-after-restore")]
+    params = c18.run_executor(ck, binp, scns, "c02fence")
+    if params is None:
+        return
+    nbad = 0
+    for sc in scns:
+        sc.unsettled, sc.handle_err = False, None
+        c18.scenario_steps(sc)
+        ck.count_case("fence " + "\n".join(sc.lines()[1:]), nontrivial=True)
+        if any(r["k"] == "EXECERR" for r in sc.recs) or (not sc.crashed and not getattr(sc, "complete", True)):
+            continue                          # infrastructure: C18 owns this executor and reports it
+        states = [r for r in sc.recs if r["k"] == "STATE"]
+        if sc.crashed:
+            rp = sc.replay(); rp["kind"] = "monitor:fence"; rp["crash_log"] = getattr(sc, "crash_log", "")
+            if nbad < 3:
+                nbad += 1
+                ck.violation("agent process died while executing fenced membership changes (scenario %s)" % sc.kind, rp)
+            continue
+        for (text, fn) in sc.expect:
+            try:
+                ok = bool(fn(states))
+            except Exception:
+                ok = False
+            if not ok and nbad < 3:
+                nbad += 1
+                rp = sc.replay(); rp["kind"] = "monitor:fence"; rp["expectation"] = text
+                ck.violation("C02 fence effect: %s" % text, rp)
+    ck.cov["fence_part_scenarios"] = len(scns)
 
 
 def run(ck):
@@ -157,6 +232,20 @@ def run(ck):
 
     def monitor(v, reqs, c):
         bad = se.mon_c02(v, reqs, fresh_ids=(c.get("tag") != "special:id-collision")) + se.mon_c11(v, reqs)
+        if "hist_last" in c:
+            # contexts computed by the real DB: judge the decision against the REPORT HISTORY, not only against the view it came from
+            hl, now = c["hist_last"], c["hist_now"]
+            for q in reqs:
+                if q["type"] == se.DELETE and q["members"]:
+                    t = hl.get("%d:%d" % (q["shard"], q["members"][0]))
+                    if t is not None and t > 0 and now - t <= eng.ttl:
+                        bad.append(("C02_delete_justified", "DELETE of replica %d of shard %d which its NodeHost reported %d <= ttl ago (at logical time %d, now %d)" % (
+                            q["members"][0], q["shard"], now - t, t, now)))
+                if q["type"] == se.ADD:
+                    s = v.shards.get(q["shard"])
+                    if s is not None and all((hl.get("%d:%d" % (s["id"], r[0])) or 0) > 0 and now - hl["%d:%d" % (s["id"], r[0])] <= eng.ttl for r in s["reps"]):
+                        bad.append(("C02_add_justified", "ADD for shard %d although every member was reported by its NodeHost within the timeout (report times %s, now %d)" % (
+                            s["id"], {r[0]: hl.get("%d:%d" % (s["id"], r[0])) for r in s["reps"]}, now)))
         return bad, []
     obs = se.run_property(ck, eng, ctxs, monitor, proofs_ok, {})
     if obs is not None and not ck.replay:
@@ -168,5 +257,7 @@ def run(ck):
             if c.get("tag") == "special:id-collision":
                 ck.cov["id_collision"] = ("scripted random source returning the id of an existing member: outcome %s; the code does not check for a "
                                           "collision (probability <= members/2^64 per draw), hypothesis fresh_id of C02_add_justified" % (o[:2],))
+    if not ck.violations and not ck.replay:
+        fence_part(ck)
     ck.cov["exhaustive"] = False
     ck.cov["exhaustive_part"] = "one-shard enumeration has %d contexts, %s of them run in this tier" % (full, "every context with a healthy majority and a PRNG sample of the others" if quick else "all")
